@@ -729,6 +729,13 @@ func strategyGoroutines(c *harness.Ctx, r *rand.Rand, rounds int, part, parts in
 			}
 			return out
 		}},
+		{"all-after-the-timeout-deaf-to-cancellation", func(k int) []nb {
+			var out []nb
+			for i := 0; i < k; i++ {
+				out = append(out, nb{Kind: "deaf", Lat: "late", Rank: i % 2, Val: 0})
+			}
+			return out
+		}},
 		{"never", func(k int) []nb {
 			var out []nb
 			for i := 0; i < k; i++ {
